@@ -77,8 +77,29 @@ def trace_noise(n, instrs, procs):
     return events, [(q["name"], list(q["sites"]), float(q["strength"])) for q in nm.processes]
 
 
+def dissipation_correspondence(ctx):
+    """apply_dissipation as digital_tjm calls it (unit time step): own strength per process, modelled order"""
+    dc, de, di = [], [], []
+    for k in range(ctx.scale(30, 600)):
+        dseed, dL = int(ctx.rng.integers(0, 2**31)), int(ctx.rng.integers(2, 6))
+        desc, order, err, dev, expr = lottery.dissipation_case(np.random.default_rng(dseed), dL, local_dt=1.0)
+        dc.append({**desc, "seed": dseed})
+        di.append((order, err, dev))
+        de.append(expr)
+    dvals = common.coq_eval_sharded(lottery.HEADER, de, tag="c03d")
+    for desc, (order, err, dev), m in zip(dc, di, dvals):
+        ctx.case(nontrivial_key=("diss", str(desc)), validated=True)
+        ctx.count("dissipation_sweeps")
+        if err or order != list(m):
+            ctx.mismatch("damping operators contracted by apply_dissipation (unit step) vs NoiseAttrib.damp_schedule", desc, err or order, list(m), key="dissipation")
+        if dev is not None and dev > 1e-9:
+            ctx.violation("dissipation", f"apply_dissipation(dt=1) differs from prod_k exp(-gamma_k/2 L_k^+L_k) applied to the dense state by {dev:.3e} "
+                          f"(processes {desc['processes']})", {"oracle": "dissipation", **desc})
+
+
 def correspond(ctx):
     ctx.rules.append(RULE)
+    dissipation_correspondence(ctx)
     cases, exprs, impl = [], [], []
     for k in range(ctx.scale(60, 1200)):
         n = int(ctx.rng.integers(2, 6))
@@ -250,6 +271,9 @@ def search(ctx):
 
 def replay(ctx, data):
     rp = data.get("replay", data)
+    if rp.get("oracle") == "dissipation":
+        _, _, err, dev, _ = lottery.dissipation_case(np.random.default_rng(rp["seed"]), rp["L"], local_dt=1.0)
+        return err or (f"apply_dissipation differs from the dense product of exponentials by {dev:.3e}" if dev > 1e-9 else None)
     if rp.get("oracle") == "tree":
         return tree_oracle(rp["args"])
     return "re-run the check: " + "; ".join(b["what"] for b in data.get("broken", []))
